@@ -62,6 +62,8 @@ def main():
         finally:
             sh(["git", "-C", "/repo", "worktree", "remove", "--force", wt])
             shutil.rmtree(wt, ignore_errors=True)
+    if "--verify-only" in a:
+        print(json.dumps(res, indent=1, ensure_ascii=False)); return 0
     # run the checks against /repo with the patch applied
     rc, out = sh(["git", "-C", "/repo", "status", "--porcelain"])
     if out.strip():
